@@ -168,6 +168,9 @@ class ReusableParts:
     def _compute_donor(self, norm: NormalizedShape):
         self._donor_cache[norm] = None  # no solution
 
+        if self.reuse_tolerance == -1:
+            return  # reuse disabled: nothing donates
+
         # try to select a donor that can fulfil every member of the set
         # the input shape is in the set so if found we can get from donor => input
         # shrinking a big thing is more likely to result in small #s that fit into
